@@ -12,7 +12,5 @@ from mirsym.world import World
 World(("uplc",))
 print("MIR dump of uplc ok")
 PY
-if [ -f driver/Cargo.toml ]; then
-  (cd driver && cargo build --offline -j 14 --target-dir "$HERE/.cache/driver-target" 2>&1 | tail -3)
-fi
+(cd driver && cargo build --offline -j 14 --target-dir "$HERE/.cache/driver-target" 2>&1 | tail -3)
 echo setup done
